@@ -90,7 +90,7 @@ EvEnd(t, e) ==
     /\ ListingHonoured
     /\ CollsStartedP(TSelected(t))
     /\ PartsAddedP(TSelected(t), {}) \/
-         ( /\ KFOn("C13_PARTEATEN") /\ PartsAddedP(TSelected(t), Eaten(t))
+         ( /\ KFOn("C13_PARTEATEN") /\ ~PartsAddedP(TSelected(t), {}) /\ PartsAddedP(TSelected(t), Eaten(t))
            /\ PrintT("KF " \o t.plan \o " C13_PARTEATEN") )
     /\ EvOther
 
